@@ -246,3 +246,59 @@ fn nodes_into_order(mut nodes: IndexMap<NaiveDateTime, Number>, ad: ADOrder, id:
         }
     }
 }
+
+// Access points for the external verification harness: the items above are private to this
+// module because Python is their only caller. Compiled only with `--features verif_hooks`.
+#[cfg(feature = "verif_hooks")]
+impl Curve {
+    #[allow(clippy::too_many_arguments)]
+    pub(crate) fn verif_new(
+        nodes: IndexMap<NaiveDateTime, Number>,
+        interpolator: CurveInterpolator,
+        ad: ADOrder,
+        id: String,
+        convention: Convention,
+        modifier: Modifier,
+        calendar: CalType,
+        index_base: Option<f64>,
+    ) -> PyResult<Self> {
+        Curve::new_py(
+            nodes,
+            interpolator,
+            ad,
+            id,
+            convention,
+            modifier,
+            calendar,
+            index_base,
+        )
+    }
+
+    pub(crate) fn verif_get(&self, date: NaiveDateTime) -> Number {
+        self.__getitem__(date)
+    }
+
+    pub(crate) fn verif_set_ad_order(&mut self, ad: ADOrder) -> PyResult<()> {
+        self.set_ad_order(ad)
+    }
+
+    pub(crate) fn verif_index_value(&self, date: NaiveDateTime) -> PyResult<Number> {
+        self.index_value_py(date)
+    }
+
+    pub(crate) fn verif_ad(&self) -> ADOrder {
+        self.ad()
+    }
+
+    pub(crate) fn verif_nodes(&self) -> IndexMap<NaiveDateTime, Number> {
+        self.nodes()
+    }
+
+    pub(crate) fn verif_eq(&self, other: &Curve) -> bool {
+        self.__eq__(other.clone())
+    }
+
+    pub(crate) fn verif_inner(&self) -> &CurveDF<CurveInterpolator, CalType> {
+        &self.inner
+    }
+}
